@@ -680,3 +680,122 @@ class CmdGen(Gen):
             if self.r.chance(1, 2):
                 fs.append(('F', [('k', ('I', k))], [('v', ('I', self.r.choice(INTS))), ('b', ('B', self.r.chance(1, 2)))]))
         return fs
+
+
+# ------------------------------------------------------------------ boolean-nesting family (C22, C23)
+# Small boolean shapes over {true, false, x, y, a == b, a != b, a < b, a >= b, o is Some, !, &&, ||}:
+# the places where a "clever" lowering of !, && and || (trailing Not, join points of the short circuit)
+# goes wrong.  Depth 0 = literals and variables, depth 1 = one operator over them (comparisons included),
+# depth 2 exhaustively, depth 3 sampled (every !s with s of depth 2 is available exhaustively).
+
+BOOL_PARAMS = [('x', T_BOOL), ('y', T_BOOL), ('a', T_INT), ('b', T_INT), ('o', opt(T_INT))]
+_BL0 = [('EBool', True), ('EBool', False), ('EVar', 'x'), ('EVar', 'y')]
+_BCMP = [('EBin', 'BEq', ('EVar', 'a'), ('EVar', 'b')), ('EBin', 'BNe', ('EVar', 'a'), ('EVar', 'b')),
+         ('EBin', 'BLt', ('EVar', 'a'), ('EVar', 'b')), ('EBin', 'BGe', ('EVar', 'a'), ('EVar', 'b')),
+         ('EIs', ('EVar', 'o'), True)]
+
+
+def bool_depth1():
+    return [('ENot', l) for l in _BL0] + [(op, l1, l2) for op in ('EAnd', 'EOr') for l1 in _BL0 for l2 in _BL0] + list(_BCMP)
+
+
+def bool_depth2():
+    d1 = bool_depth1()
+    s1 = _BL0 + d1
+    out = [('ENot', s) for s in d1]
+    for op in ('EAnd', 'EOr'):
+        for i, s in enumerate(s1):
+            for j, t in enumerate(s1):
+                if i >= len(_BL0) or j >= len(_BL0):
+                    out.append((op, s, t))
+    return out
+
+
+def bool_depth3_sample(rng, n, d2=None):
+    d2 = d2 or bool_depth2()
+    s2 = _BL0 + bool_depth1() + d2
+    out = []
+    for _ in range(n):
+        c = rng.below(4)
+        if c < 2:
+            out.append(('ENot', rng.choice(d2)))        # the negation of a short circuit, of a comparison, of a negation
+        elif c == 2:
+            out.append((rng.choice(['EAnd', 'EOr']), rng.choice(d2), rng.choice(s2)))
+        else:
+            out.append((rng.choice(['EAnd', 'EOr']), rng.choice(s2), rng.choice(d2)))
+    return out
+
+
+def bool_assignments():
+    """12 argument lists for BOOL_PARAMS: all (x, y), the three orders of (a, b), o alternating"""
+    out = []
+    for i, (x, y) in enumerate([(False, False), (False, True), (True, False), (True, True)]):
+        for j, (a, b) in enumerate([(1, 1), (1, 2), (2, 1)]):
+            o = ('N',) if (i + j) % 2 == 0 else ('O', ('I', 7))
+            out.append([('B', x), ('B', y), ('I', a), ('I', b), o])
+    return out
+
+
+def bool_eval(s, args):
+    """the value of a shape under an assignment (the language semantics of these operators)"""
+    env = {'x': args[0][1], 'y': args[1][1], 'a': args[2][1], 'b': args[3][1], 'o': args[4][0] == 'O'}
+    def ev(e):
+        k = e[0]
+        if k == 'EBool':
+            return e[1]
+        if k == 'EVar':
+            return env[e[1]]
+        if k == 'ENot':
+            return not ev(e[1])
+        if k == 'EAnd':
+            return ev(e[1]) and ev(e[2])
+        if k == 'EOr':
+            return ev(e[1]) or ev(e[2])
+        if k == 'EIs':
+            return env['o'] == e[2]
+        a, b = env['a'], env['b']
+        return {'BEq': a == b, 'BNe': a != b, 'BLt': a < b, 'BGe': a >= b}[e[1]]
+    return ev(s)
+
+
+def bool_in_context(s, c):
+    """the shape as a value, as the scrutinee of if / match"""
+    if c % 3 == 0:
+        return s
+    if c % 3 == 1:
+        return ('EIf', s, ('EBlock', [], ('EBool', True)), ('EBlock', [], ('EBool', False)))
+    return ('EMatch', s, [(('PVals', [('PLit', ('LBool', True))]), ('EBool', True)), (('PVals', [('PLit', ('LBool', False))]), ('EBool', False))])
+
+
+def bool_policy(shapes, first=0):
+    """one policy: a function per shape (value / if / match position in turn), functions with the shape next to a
+    diverging operand (compiled, never called), and main returning the bit mask of the results"""
+    funs = []
+    acc = ('EInt', 0)
+    for i, s in enumerate(shapes):
+        name = 'b%d' % i
+        funs.append({'name': name, 'params': BOOL_PARAMS, 'ret': T_BOOL, 'body': [('SReturn', bool_in_context(s, first + i))]})
+        if i % 4 == 0:
+            op = 'EOr' if (i // 4) % 2 == 0 else 'EAnd'
+            funs.append({'name': 'd%d' % i, 'params': BOOL_PARAMS, 'ret': T_BOOL,
+                         'body': [('SReturn', (op, s, ('ETodo',)) if i % 8 == 0 else (op, ('ENot', s), ('ETodo',)))]})
+        call = ('ECall', name, [('EVar', v) for v, _ in BOOL_PARAMS])
+        bit = ('EIf', call, ('EBlock', [], ('EInt', 1 << i)), ('EBlock', [], ('EInt', 0)))
+        acc = ('ECall', 'saturating_add', [acc, bit])
+    funs.append({'name': 'main', 'params': BOOL_PARAMS, 'ret': T_INT, 'body': [('SReturn', acc)]})
+    return {'enums': [], 'structs': [], 'effects': [], 'facts': [], 'globals': [], 'funs': funs, 'finfuns': [], 'cmds': [],
+            'actions': [], 'uses_ffi': False}
+
+
+def bool_family(rng, thorough, per_policy=32):
+    """the policies of the family: thorough = all of depth <= 2, every !s for s of depth 2, and a depth-3 sample;
+    quick = depth 1, and samples of depth 2 and depth 3"""
+    d1, d2 = bool_depth1(), bool_depth2()
+    if thorough:
+        shapes = d1 + d2 + [('ENot', s) for s in d2] + bool_depth3_sample(rng, 1200, d2)
+    else:
+        shapes = d1 + [rng.choice(d2) for _ in range(140)] + bool_depth3_sample(rng, 139, d2)
+    pols = []
+    for i in range(0, len(shapes), per_policy):
+        pols.append((bool_policy(shapes[i:i + per_policy], first=i), shapes[i:i + per_policy]))
+    return pols
